@@ -259,9 +259,9 @@ func (x *XRefParser) parseTraditionalXRef() (*XRefTable, error) {
 		}
 
 		// Check if we've reached the trailer
-		if line == "trailer" {
-			// Parse trailer dictionary
-			trailer, err := x.parseTrailer(scanner)
+		if strings.HasPrefix(line, "trailer") {
+			// Parse trailer dictionary; it may begin on the line of the keyword
+			trailer, err := x.parseTrailerFrom(scanner, strings.TrimPrefix(line, "trailer"))
 			if err != nil {
 				return nil, fmt.Errorf("failed to parse trailer: %w", err)
 			}
@@ -554,11 +554,21 @@ func (x *XRefParser) parseEntry(line string) (*XRefEntry, error) {
 
 // parseTrailer parses the trailer dictionary after the "trailer" keyword.
 func (x *XRefParser) parseTrailer(scanner *bufio.Scanner) (Dict, error) {
+	return x.parseTrailerFrom(scanner, "")
+}
+
+// parseTrailerFrom parses the trailer dictionary; sameLine is what followed the
+// "trailer" keyword on its own line.
+func (x *XRefParser) parseTrailerFrom(scanner *bufio.Scanner, sameLine string) (Dict, error) {
 	// Collect all remaining lines until we find a dictionary
 	var dictText strings.Builder
 
-	for scanner.Scan() {
+	for first := true; first || scanner.Scan(); first = false {
 		line := scanner.Text()
+		if first {
+			// What followed the trailer keyword on its own line
+			line = sameLine
+		}
 		dictText.WriteString(line)
 		dictText.WriteString("\n")
 
